@@ -59,6 +59,8 @@ SPEC = {
         'AITB.POMDP.blindSub_le_mdpSuper', 'AITB.POMDP.lowerRef_le_upperRef', 'AITB.POMDP.blind_fast_start_unsafe_witness',
         'AITB.POMDP.qmdp_iter_upper', 'AITB.POMDP.qmdp_finite_upper', 'AITB.POMDP.qmdpStep_sound', 'AITB.POMDP.sawtooth_form_isInterp',
         'AITB.POMDP.weighted_form_isInterp', 'AITB.POMDP.sawtooth_sound', 'AITB.POMDP.lpInterp_sound',
+        'AITB.POMDP.lbClause_of_sound', 'AITB.POMDP.ubClause_of_sound', 'AITB.POMDP.lb_le_ub_of_sound',
+        'AITB.POMDP.iterH_shift', 'AITB.POMDP.gap_eq', 'AITB.POMDP.gap_vanishes', 'AITB.POMDP.lb_le_ub',
         'AITB.POMDP.iterHV_eq', 'AITB.POMDP.upperRefV_eq', 'AITB.POMDP.lowerRefV_eq',
         'AITB.POMDP.mW_valid', 'AITB.POMDP.mW_ref_superSol', 'AITB.POMDP.ΓW_sound', 'AITB.POMDP.conservative_skip_counterexample',
     ],
@@ -68,10 +70,20 @@ SPEC = {
     'timeout': {'quick': 900, 'thorough': 3000},
     'case_timeout': 240,
     'classify_crash': classify_crash,
-    'rule': 'one case = one (POMDP, solver) pair; 10 fixed POMDPs (Tiger, 1-state clamp witnesses, corner/face initial beliefs, all-negative rewards) then '
-            '40 (quick) / 300 (thorough) seeded dyadic POMDPs S<=4(5) A<=3 O<=3, discounts 1/2..15/16 (and 0.9/0.95/0.3), initial belief corner/face/interior; '
+    'rule': 'one case = one (POMDP, solver) pair; 12 fixed POMDPs (Tiger, 1-state clamp witnesses, corner/face initial beliefs, all-negative rewards, two S=5 GapMin regression instances) then '
+            '38 (quick) / 298 (thorough) seeded dyadic POMDPs S<=4(5) A<=3 O<=3, discounts 1/2..15/16 (and 0.9/0.95/0.3), initial belief corner/face/interior; '
             'solvers: BlindStrategies (both starts), FIB+QMDP, PBVI, PERSEUS, SARSOP (<=30/80 observed iterations), GapMin (<=12/30), look-ahead kernels. '
             'non-trivial = every line (each carries a full POMDP); distinct by protocol line',
-    'modelled': [],
-    'assumptions': [],
+    'modelled': ['include/AIToolbox/POMDP/Algorithms/BlindStrategies.hpp: operator() (both starts, clamp, tolerance loop)',
+                 'include/AIToolbox/POMDP/Algorithms/FastInformedBound.hpp: operator() plain and SOSA-parameterised (GapMin belief-augmented POMDP)',
+                 'include/AIToolbox/POMDP/Algorithms/QMDP.hpp + src/POMDP/Algorithms/QMDP.cpp: = C01 valueIteration + fromQFunction',
+                 'include/AIToolbox/POMDP/Utils.hpp: makeSOSA, crossSumBestAtBelief (as backupVec of the linked vectors), bestConservativeAction (as found and repaired), bestPromisingAction (per-action value; sawtooth reading through the C12 model)',
+                 'include/AIToolbox/POMDP/Algorithms/PBVI.hpp, PERSEUS.hpp: outer step = point backups of the previous timestep (links), any pruning',
+                 'include/AIToolbox/POMDP/Algorithms/SARSOP.hpp, GapMin.hpp: event system of Props/C03Anytime.lean (NOT modelled: sampling heuristics, deltaPrune bookkeeping, selectReachableBeliefs, cleanUp index handling)',
+                 'src/Utils/Polytope.cpp: LPInterpolation / sawtoothInterpolation through the C12 models (Props/C03Bridge.lean: their values are IsInterp values)'],
+    'assumptions': ['V* = inf_k upperRef = sup_k lowerRef (the one step of real analysis; everything else is in exact rationals)',
+                    'IEEE rounding outside the theorems: clauses on double outputs get the slack 1e-9*max(1,|R|max/(1-discount)); rows of T/O summing to 1 within 1e-12 are accepted as stochastic',
+                    'a call that stops on a tolerance or horizon is sound up to the slack it reports itself (DESIGN §8 C03); zero slack where the monotone-from-a-safe-start theorems apply',
+                    'soundness "at every belief" of implementation outputs is evaluated at the initial belief, all corners, the centre and the supplied beliefs; the for-all is the theorems\''],
+    'trusted_base': ['tools/extract_c03.py (start reductions, clamp literal, zero-probability skip of bestConservativeAction, call sites in SARSOP/GapMin)'],
 }
